@@ -468,7 +468,7 @@ def check_C05(tier, seed):
         "co-spherical, exact lattices, clusters); every one must build without panic in release AND dev profile, return "
         "finite values and pass the C01-C04 comparisons; distinct = (input, embedding, cell) triples; non-vacuity: "
         "harness.runs_with_exact counts runs in which the exact predicate was consulted",
-        profiles=("release", "dev"))
+        profiles=("release", "dev"), with_tess=True)
     return out.finish()
 
 
@@ -841,8 +841,93 @@ def check_C17(tier, seed):
     return out.finish()
 
 
+# ----------------------------------------------------------------------------------------------
+# C18: clipping independent of storage order (VCycle + VCellImpl)
+# ----------------------------------------------------------------------------------------------
+def check_C18(tier, seed):
+    out = Outcome("C18", tier, seed)
+    ensure_dirs()
+    fams = [("R3s", FAMILIES["R3s"], 6, 3), ("D2s", fam((3, 3, 1), 2, False, 1, 2, order="fixed"), 5, 2),
+            ("P2s", fam((3, 3, 1), 2, True, 1, 2, order="fixed"), 5, 2)]
+    if tier == "thorough":
+        fams = [("R3a", FAMILIES["R3a"], 7, 4), ("P3b", FAMILIES["P3b"], 7, 3), ("P2a", FAMILIES["P2a"], 7, 3), ("D2a", FAMILIES["D2a"], 7, 4)]
+    cases_file = os.path.join(OUT, "C18_clipcases.ndjson")
+    sim_inputs_file = None
+    with open(cases_file, "w") as cf:
+        for (name, spec, maxex, allrot) in fams:
+            cfg = os.path.join(OUT, "tlc", "vcellimpl_%s.cfg" % name)
+            consts = dict(Inputs=("<-", "MCInputs"), Ties="keep", Order="fixed",
+                          LGx=spec["G"][0], LGy=spec["G"][1], LGz=spec["G"][2], LDim=spec["dim"], LPer=spec["per"],
+                          LNmin=spec["nmin"], LNmax=spec["nmax"], LFix=spec["fix"], UseFile=False, Emit=True,
+                          MaxExhaustive=maxex, AllRotUpTo=allrot)
+            write_cfg(cfg, spec="ISpec", constants=consts,
+                      invariants=["TypeOK", "NoDegenerate", "Closed", "Euler", "Oriented", "ImplOK", "CycleCapacity", "EmitClips"])
+            r = run_tlc("mc/MCVCellImpl.tla", cfg, tag_sink={"CLIP": cf}, tags=("CLIP",), env_extra={"VV_INPUTS": "/dev/null"}, timeout=3000)
+            if r.violation:
+                raise ToolError("VCellImpl violates its own invariant (%s): %s\n%s" % (name, r.violation, r.raw_tail[-2500:]))
+            out.coverage["states"] = out.coverage.get("states", 0) + r.distinct
+            out.coverage["transitions"] = out.coverage.get("transitions", 0) + r.states
+            out.coverage.setdefault("models", {})[name] = dict(states=r.distinct, wall=round(r.wall, 1), max_exhaustive=maxex, all_rotations_up_to=allrot)
+            log("VCellImpl %s: %d states (%.1fs)" % (name, r.distinct, r.wall))
+        # seeded larger lattice inputs: bigger removed sets
+        inputs = sim_inputs(seed, 12 if tier == "quick" else 120, tier, dims=(3, 3, 2))
+        sim_inputs_file = os.path.join(OUT, "C18_siminputs.ndjson")
+        with open(sim_inputs_file, "w") as f:
+            for i in inputs:
+                f.write(json.dumps(i) + "\n")
+        cfg = os.path.join(OUT, "tlc", "vcellimpl_sim.cfg")
+        consts = dict(Inputs=("<-", "MCInputs"), Ties="keep", Order="fixed", LGx=1, LGy=1, LGz=1, LDim=3, LPer=False,
+                      LNmin=1, LNmax=1, LFix=False, UseFile=True, Emit=True, MaxExhaustive=5, AllRotUpTo=2)
+        write_cfg(cfg, spec="ISpec", constants=consts,
+                  invariants=["TypeOK", "NoDegenerate", "Closed", "ImplOK", "CycleCapacity", "EmitClips"])
+        r = run_tlc("mc/MCVCellImpl.tla", cfg, tag_sink={"CLIP": cf}, tags=("CLIP",), env_extra={"VV_INPUTS": sim_inputs_file}, timeout=3000)
+        if r.violation:
+            raise ToolError("VCellImpl violates its own invariant (sim): %s\n%s" % (r.violation, r.raw_tail[-2500:]))
+        out.coverage["states"] += r.distinct
+        out.coverage["transitions"] += r.states
+        out.coverage["models"]["sim"] = dict(states=r.distinct, wall=round(r.wall, 1), inputs=len(inputs))
+        log("VCellImpl sim: %d states (%.1fs)" % (r.distinct, r.wall))
+    # subsample the clip cases for replay (keep all with many removed vertices)
+    lines = open(cases_file).read().splitlines()
+    rng = random.Random(seed)
+    big = [l for l in lines if json.loads(l)["nrem"] >= 3]
+    small = [l for l in lines if json.loads(l)["nrem"] < 3]
+    cap = 1500 if tier == "quick" else 12000
+    rng.shuffle(big)
+    rng.shuffle(small)
+    keep = big[:cap] + small[:max(0, cap // 3)]
+    sub = os.path.join(OUT, "C18_clipcases_sub.ndjson")
+    open(sub, "w").write("\n".join(keep) + "\n")
+    binp = build_harness()
+    res_file = os.path.join(OUT, "C18_result.json")
+    run_harness(binp, ["clip", "--cases", sub, "--out", res_file, "--seed", str(seed), "--perms", "10" if tier == "quick" else "24",
+                       "--float-count", "16" if tier == "quick" else "120"], timeout=7200)
+    res = json.load(open(res_file))
+    log("clip replay: %s" % res["stats"])
+    for f in res["failures"]:
+        out.violation("%s detail=%s" % (f["what"], json.dumps(f["detail"])[:300]), f)
+    st = res["stats"]
+    out.coverage.update({
+        "traces_validated_against_impl": st["clip_cases"] + st["library_cells"],
+        "evaluations": st["variants"] + st["library_variants"],
+        "distinct_nontrivial": st["cases_with_2plus_removed"] + st["library_cells"],
+        "clip_cases_generated_by_tlc": len(lines),
+        "replay": st,
+        "rule": "TLC: every reachable cell x next cutting plane; all orders of the removed set up to MaxExhaustive (cyclic shifts of the "
+                "sorted and reversed order above), all rotations of every triple up to AllRotUpTo (first triple above). Replay: each CLIP "
+                "case under 10/24 permutations+rotations of the whole vertex array through verif::clip_cell in two embeddings; plus cells "
+                "built by the library (up to ~90 planes, faces with ~30 edges) re-clipped through verif::clip_existing under permutations. "
+                "distinct_nontrivial = CLIP cases with >= 2 removed vertices + library cells",
+        "samples": res["samples"][:2] or [json.loads(lines[0])],
+    })
+    out.assumptions = ["TLC evaluates VCycle/VCellImpl correctly; the transcription of SimpleCycle/compute_boundary is line by line",
+                       "with exact ties and inexact snapping the result may legitimately differ in which tied vertices are removed: "
+                       "those variants are only required to be closed polytopes (known finding F2 territory)"]
+    return out.finish()
+
+
 CHECKS = {"C01": check_C01, "C02": check_C02, "C04": check_C04, "C05": check_C05, "C06": check_C06,
-          "C08": check_C08, "C16": check_C16, "C03": check_C03, "C07": check_C07, "C12": check_C12, "C13": check_C13, "C09": check_C09, "C17": check_C17}
+          "C08": check_C08, "C16": check_C16, "C03": check_C03, "C07": check_C07, "C12": check_C12, "C13": check_C13, "C09": check_C09, "C17": check_C17, "C18": check_C18}
 
 
 def run_check(pid, tier, seed):
